@@ -30,6 +30,8 @@ impl Violation {
 #[derive(Clone, Debug)]
 pub enum RefAnswer {
     Result(Value),
+    /// a large answer (completion lists): only its hash and head are kept in the memo
+    Digest(u64, String),
     /// the reference session itself did not produce an answer (analysis thread died, server crashed)
     Failed(String),
 }
@@ -63,7 +65,15 @@ pub fn reference(uri: &str, text: &str, q: &Query, line: u32, ch: u32) -> Arc<Re
             Message::Response(r) if r.id == lsp_server::RequestId::from(2) => Some(r.clone()),
             _ => None,
         }) {
-            Some(r) if r.error.is_none() => RefAnswer::Result(r.result.unwrap_or(Value::Null)),
+            Some(r) if r.error.is_none() => {
+                let v = r.result.unwrap_or(Value::Null);
+                let text = v.to_string();
+                if text.len() > 1024 {
+                    RefAnswer::Digest(vcore::hash_str(&text), text.chars().take(200).collect())
+                } else {
+                    RefAnswer::Result(v)
+                }
+            }
             Some(r) => RefAnswer::Failed(format!("error response {:?}", r.error)),
             None => RefAnswer::Failed("no response".into()),
         }
@@ -180,13 +190,30 @@ fn check_ranges(v: &Value, doc_uri: &str, text: &str, in_other_doc: bool, bad: &
 // formatting
 
 fn expected_format(text: &str) -> Option<String> {
+    // memoised: a formatter panic inside dprint-core leaks its arena, so it must not be repeated per execution
+    static MEMO: Mutex<Option<HashMap<u64, Option<Arc<String>>>>> = Mutex::new(None);
+    let k = vcore::hash_str(text);
+    if let Some(r) = MEMO.lock().unwrap().get_or_insert_with(HashMap::new).get(&k) {
+        return r.as_ref().map(|s| s.to_string());
+    }
+    let r = expected_format_uncached(text);
+    MEMO.lock().unwrap().get_or_insert_with(HashMap::new).insert(k, r.clone().map(Arc::new));
+    r
+}
+
+fn expected_format_uncached(text: &str) -> Option<String> {
+    // on an OS thread of its own: see sim::execute
     let t = text.to_string();
-    std::panic::catch_unwind(move || {
-        let mut diags = vec![];
-        let cst = lelwel::frontend::parser::Parser::new(&t, &mut diags).parse(&mut diags);
-        lelwel::backend::format::format(&cst)
-    })
-    .ok()
+    std::thread::Builder::new()
+        .stack_size(16 << 20)
+        .spawn(move || {
+            let mut diags = vec![];
+            let cst = lelwel::frontend::parser::Parser::new(&t, &mut diags).parse(&mut diags);
+            lelwel::backend::format::format(&cst)
+        })
+        .expect("spawn formatter thread")
+        .join()
+        .ok()
 }
 
 pub fn formatter_panics(text: &str) -> bool {
@@ -427,7 +454,7 @@ fn judge_inner(h: &History, out: &Outcome, stats: &mut JudgeStats) -> Vec<Violat
     for (i, s) in steps.iter().enumerate() {
         let uri = &h.uris[s.doc()];
         match s {
-            Step::Open { doc, text } | Step::Change { doc, text } => {
+            Step::Open { doc, text } | Step::Change { doc, text, .. } => {
                 latest[*doc] = Some(text.clone());
                 let Some(p) = publishes.get(pub_i) else {
                     if !crashed {
@@ -604,11 +631,25 @@ fn judge_inner(h: &History, out: &Outcome, stats: &mut JudgeStats) -> Vec<Violat
                         None => *ch,
                     }
                 };
-                match &*reference(uri, &text, q, *line, clamped) {
-                    RefAnswer::Failed(_) => stats.ref_failed += 1,
+                let refans = reference(uri, &text, q, *line, clamped);
+                let (differs, exp_show) = match &*refans {
+                    RefAnswer::Failed(_) => {
+                        stats.ref_failed += 1;
+                        (false, String::new())
+                    }
                     RefAnswer::Result(exp) => {
                         stats.requests_compared += 1;
-                        if &got != exp {
+                        (&got != exp, exp.to_string())
+                    }
+                    RefAnswer::Digest(h, head) => {
+                        stats.requests_compared += 1;
+                        (vcore::hash_str(&got.to_string()) != *h, head.clone())
+                    }
+                };
+                {
+                    {
+                        let exp = exp_show;
+                        if differs {
                             let site = if out.thread_panics > 0 {
                                 format!("{}:analysis_thread:{}", q.name(), analyzer_site(out))
                             } else {
@@ -620,7 +661,7 @@ fn judge_inner(h: &History, out: &Outcome, stats: &mut JudgeStats) -> Vec<Violat
                                 detail: format!(
                                     "step {i} {q:?} at {line}:{ch}: got {} but a fresh session on the latest text answers {}",
                                     got.to_string().chars().take(240).collect::<String>(),
-                                    exp.to_string().chars().take(240).collect::<String>()
+                                    exp.chars().take(240).collect::<String>()
                                 ),
                                 step: i,
                             });
